@@ -209,6 +209,13 @@ class Case:
                     else:
                         queues.setdefault(r["topic"], {}).setdefault("sub", []).append(r)
                 hubq = []
+                if len(w) > 1 and w[1] == "yield" and ln.plain is None:
+                    # the topic which is being deleted took its queued publishes while the hub waited for the database
+                    for t, q in queues.items():
+                        for r in list(q.get("pub", [])):
+                            if answered(r["sid"], r["topic"]):
+                                r["done"] = i
+                                q["pub"].remove(r)
             elif w[0] == "tstep" and len(w) > 2:
                 self.cross[i] = "exit" if w[2] == "exit" else "step"
                 kind = {"reg": "sub", "unreg": "leave", "pub": "pub"}.get(w[2])
@@ -585,6 +592,13 @@ def mon_C03(case):
             if pre is not None and state_of(ln) != state_of(pre):
                 out.append((i, "C03 publish to `me` changed the topic or store state"))
             continue
+        if case.cross.get(i) == "hub" and ln.plain is None:
+            # the hub shuts topics down in this step: whatever is published to one of them meanwhile is refused
+            pre = prev_state(case, i)
+            for sid, f in ln.frames:
+                fw = f.split(" ")
+                if f.startswith("ctrl 202 ") and pre is not None and fw[2] in pre.store and (fw[2] not in ln.store or ln.store[fw[2]]["state"] == 20):
+                    out.append((i, f"C03 publish to {fw[2]} by {case.sess.get(sid, {}).get('user')} accepted while the topic is being deleted"))
         if w[0] != "pub" or ln.plain is not None or len(w) < 4:
             continue
         w, pre, act = pub_expect(case, i)
@@ -1535,7 +1549,11 @@ def mon_C13(case):
             if not known and w[0] not in ("newgrp",):
                 codes = [int(f.split(" ")[1]) for s, f in ln.frames if s == w[1] and f.startswith("ctrl ")]
                 if codes and min(codes) < 300:
-                    out.append((i, f"C13 `{w[0]}` addressed to the non-existent topic {w[2]} answered {min(codes)}"))
+                    # a channel which went with its owner's account: the readers' subscriptions (rows under the `chn` name) are left behind
+                    orphan = i in case.via_chn and any(k < i and any(w[2] in l.store and l.store[w[2]]["owner"] == u for l in case.lines[:k] if l.plain is None)
+                                                       for u, k in case.deleted_before(i).items())
+                    tag = "[orphan-chan-sub] " if orphan else ""
+                    out.append((i, f"C13 {tag}`{w[0]}` addressed to the non-existent topic {w[2]} answered {min(codes)}"))
     return out
 
 
